@@ -110,6 +110,11 @@ func Reference(s *proj.Server, pr *Prepared, p *plan.Plan) *refexec.Result {
 	return refexec.Execute(refexec.Config{Schema: s.Schema, Doc: pr.Doc, Op: pr.Op, Vars: pr.Vars, Plan: p, IsResolver: s.U.IsResolver})
 }
 
+// ReferenceStop is Reference with null propagation stopping at the given object paths.
+func ReferenceStop(s *proj.Server, pr *Prepared, p *plan.Plan, stopAt map[string]bool) *refexec.Result {
+	return refexec.Execute(refexec.Config{Schema: s.Schema, Doc: pr.Doc, Op: pr.Op, Vars: pr.Vars, Plan: p, IsResolver: s.U.IsResolver, StopAt: stopAt})
+}
+
 // Candidate is a key a dry run reaches, with what may be overridden there.
 type Candidate struct {
 	Key  string
